@@ -340,8 +340,10 @@ class Host(utils.EventEmitter):
 
     async def reset(self, driver_factory=drivers.get_driver_for_host) -> None:
         if self.ready:
-            self.ready = False
+            # Wait for the command in flight (if any) before we stop accepting packets:
+            # its response would otherwise be dropped, and never release the semaphore
             await self.flush()
+            self.ready = False
 
         # Instantiate and init a driver for the host if needed.
         # NOTE: we don't keep a reference to the driver here, because we don't
